@@ -15,6 +15,7 @@ package rapidcore
 // (initFailures is assigned once, before the goroutine that reads it is started: not listed)
 //@   protects invokeCtx, invokeTimeout, rapidPhase, runtimeState, cachedInitErrorResponse, reservationCancel
 //@   owns invokeCtx: Token, ReplySent, ReplyStream, Direct
+//@   invariant [a-cached-init-error-fits-the-reply-limit] fitsReplyLimit(s.cachedInitErrorResponse)
 //@   guarantee [reply-once] old(s.invokeCtx) != nil && s.invokeCtx == old(s.invokeCtx) && old(s.invokeCtx.ReplySent) ==> s.invokeCtx.ReplySent
 //@   guarantee [id-fixed] old(s.invokeCtx) != nil && s.invokeCtx == old(s.invokeCtx) ==> s.invokeCtx.Token.InvokeID == old(s.invokeCtx.Token.InvokeID)
 
@@ -66,7 +67,12 @@ package rapidcore
 //@ func (*Server).getRuntimeState
 //@   modifies nothing
 //@   ensures r0 == s.runtimeState
+// C07: an /init/error body that is cached for a later invocation is sent through the default-error path, which treats
+// every refusal other than "already replied" as fatal (log.Panicf in the release goroutine): what is cached must be
+// something that path can deliver, i.e. within the payload limit.
+//@ spec fitsReplyLimit(r *interop.ErrorInvokeResponse) bool = r == nil || len(r.Payload) <= interop.MaxPayloadSize
 //@ func (*Server).setCachedInitErrorResponse
+//@   requires [what-is-cached-can-be-delivered-later] fitsReplyLimit(errResp)
 //@   modifies s.cachedInitErrorResponse
 //@   ensures s.cachedInitErrorResponse == errResp
 //@ func (*Server).getCachedInitErrorResponse
